@@ -219,6 +219,12 @@ def gen_actor(rng, aid, ntrees, others):
                         'path': [rng.below(2), rng.below(3)],
                         'prefer': rng.choice(['stats', 'path', 'items']),
                         'key': 'zz', 'value': 7, 'deep': rng.chance(0.5)})
+        elif k < 18 and rng.chance(0.3):
+            # a whole tree copied over this one
+            ops.append({'op': 'clone_tree', 'tree': tn,
+                        'from': rng.choice(everyone),
+                        'how': rng.choice(['deepcopy', 'pickle']),
+                        'protocol': rng.choice([0, 2, 5])})
         elif k < 18:
             ops.append({'op': rng.choice(['repr', 'iter', 'getattrs']),
                         'tree': tn})
